@@ -34,7 +34,7 @@ theorem applyBitList_eq (cur : Nat) (vs : List Int) (h : cur < 64) :
   applyBitList_go vs 0 cur h
 
 theorem mod64 (v : Int) : (v % 64).toNat < 64 := by omega
-theorem cast_mod64 (n : Nat) (h : n < 64) : ((n : Int) % 64).toNat = n := by omega
+theorem cast_mod643 (n : Nat) (h : n < 64) : ((n : Int) % 64).toNat = n := by omega
 
 /-! ### auto_ack -/
 
@@ -46,7 +46,7 @@ theorem getAutoAck_post (s : DrvState) (h : Inv s) :
   exact { h.cached with aa := rfl }
 
 /-- the state shape every EN_AA setter ends in -/
-theorem aa_write {s t : DrvState} (h : Inv s) {c : Radio} (hr : Reach s t c) (hc : c = s.cfg) (m : Nat)
+theorem aa_write {s t : DrvState} (h : Inv s) {c : Radio} (hr : Reach3 s t c) (hc : c = s.cfg) (m : Nat)
     (hm : m < 64) (hd : Cached t.d { s.cfg with enAA := m }) :
     Post ((.ok () : Except PyErr Unit), t.spiStep [0x20 ||| 1, m]) s (.ok ()) { s.cfg with enAA := m }
       t.d.pipe0ReadAddr := by
@@ -61,14 +61,14 @@ theorem setAutoAckAttr_post (a : Arg) (m : Nat) (s : DrvState) (h : Inv s) (ha :
     have hm : m = if v then 0x3F else 0 := by simpa [maskArg] using ha.symm
     subst hm
     exec_simp []
-    rw [exec_regWrite_nat _ _ _ (by split <;> decide) (by decide)]
+    rw [exec_regWrite_nat3 _ _ _ (by split <;> decide) (by decide)]
     refine aa_write h (by reach h.wf) rfl _ (by split <;> decide) ?_
     exact { h.cached with aa := rfl }
   | i v =>
     have hm : m = (v % 64).toNat := by simpa [maskArg] using ha.symm
     subst hm
     exec_simp []
-    rw [exec_regWrite_nat _ _ _ (by omega) (by decide)]
+    rw [exec_regWrite_nat3 _ _ _ (by omega) (by decide)]
     refine aa_write h (by reach h.wf) rfl _ (mod64 v) ?_
     exact { h.cached with aa := rfl }
   | l vs =>
@@ -76,7 +76,7 @@ theorem setAutoAckAttr_post (a : Arg) (m : Nat) (s : DrvState) (h : Inv s) (ha :
     have hm : m = applyList s.cfg.enAA 0 vs := by simpa [maskArg] using ha.symm
     subst hm
     exec_simp [readVal_enAA, hl.1]
-    rw [exec_regWrite_nat _ _ _ (by omega) (by decide)]
+    rw [exec_regWrite_nat3 _ _ _ (by omega) (by decide)]
     refine aa_write h (by reach h.wf) rfl _ hl.2 ?_
     exact { h.cached with aa := rfl }
   | other => simp [maskArg] at ha
@@ -97,8 +97,8 @@ theorem setAutoAck_pipe_post (e : Bool) (p : Int) (s : DrvState) (h : Inv s) (hp
   have hp' : 0 ≤ p ∧ p ≤ 5 := hp
   have hb := bits_pipe _ h.ok.enAA p.toNat (by omega) e
   unfold setAutoAck setAutoAckAttr
-  exec_simp [hp', readVal_enAA, hb.1, cast_mod64 _ hb.2.1]
-  rw [exec_regWrite_nat _ _ _ (by omega) (by decide)]
+  exec_simp [hp', readVal_enAA, hb.1, cast_mod643 _ hb.2.1]
+  rw [exec_regWrite_nat3 _ _ _ (by omega) (by decide)]
   refine aa_write h (by reach h.wf) rfl _ hb.2.1 ?_
   exact { h.cached with aa := rfl }
 
